@@ -28,6 +28,9 @@ pub enum LEv {
     Fail(u8),
     /// a response from peer i for a request that is no longer outstanding
     Late(u8),
+    /// peer i sends the first of two NODES packets (total 2) holding this peer's record; the
+    /// request stays outstanding
+    Partial(u8, u8),
     IdlePeer,
     IdleQuery,
     Wake,
@@ -45,6 +48,9 @@ pub struct LCfg {
     /// An earlier lookup that ended with requests still outstanding at the handler:
     /// 0 none; 1 cut off by the query timeout; 2 finished after all its peers went unresponsive.
     pub prelude: u8,
+    /// peers may also answer with the first packet of a two-packet NODES answer and never send the
+    /// second (the request then fails by timeout; what was received still counts)
+    pub partial: bool,
 }
 
 fn peer_record(i: u8) -> Enr {
@@ -116,11 +122,18 @@ async fn run_async(cfg: &LCfg, hist: &[LEv]) -> Outcome<LEv> {
     }
     // ledger
     let mut issued: BTreeMap<usize, (v::RequestId, Instant, Vec<u64>)> = BTreeMap::new();
+    // where each request went (a real handler reports a response from exactly that address)
+    let mut sent_to: BTreeMap<usize, std::net::SocketAddr> = BTreeMap::new();
     let mut answered: BTreeSet<usize> = BTreeSet::new();
     let mut succeeded: BTreeSet<usize> = BTreeSet::new();
     let mut successes = 0usize;
     // peers the lookup was told about in a first answer to one of its requests, at a requested distance
     let mut learned: BTreeSet<usize> = BTreeSet::new();
+    // peers of which some record satisfying the predicate was reported to the lookup (its initial
+    // candidates' stored records, records in answers)
+    let mut reported_ok: BTreeSet<usize> = (0..cfg.n_peers).filter(|i| predicate(&peers[*i])).collect();
+    // first packets of two-packet answers received so far (peer -> the peer named in it)
+    let mut partial: BTreeMap<usize, usize> = BTreeMap::new();
     let mut cut_off = false;
     let mut result: Option<Vec<Enr>> = None;
     let mut resolved_at: Option<usize> = None;
@@ -149,6 +162,7 @@ async fn run_async(cfg: &LCfg, hist: &[LEv]) -> Outcome<LEv> {
                                 }
                                 *counters.entry("issuances_above_parallelism").or_insert(0) += 1;
                             }
+                            sent_to.insert(p, contact.socket_addr());
                             issued.insert(p, (req.id.clone(), now, distances.clone()));
                         }
                     }
@@ -181,25 +195,48 @@ async fn run_async(cfg: &LCfg, hist: &[LEv]) -> Outcome<LEv> {
                 succeeded.insert(*p as usize);
                 successes += 1;
                 *counters.entry("responses").or_insert(0) += 1;
-                for i in s.iter().filter(|i| **i < 100) {
+                for i in s.iter().filter(|i| **i < 100 || **i >= 200).map(|i| if *i >= 200 { *i - 200 } else { *i }).collect::<Vec<u8>>().iter() {
                     let d = if *i == *p { 0 } else { util::log2_distance(&ids[*p as usize], &ids[*i as usize]) };
                     if distances.contains(&d) && *i != *p {
                         learned.insert(*i as usize);
                     }
                 }
                 // 100 + i: a newer record of peer i that carries no endpoint any more
-                let nodes: Vec<Enr> = s.iter().map(|i| if *i >= 100 { util::enr(&util::key(91 + (*i - 100) as u16), &util::EnrSpec { seq: 2, ..Default::default() }) } else { peers[*i as usize].clone() }).collect();
-                let from = NodeAddress { socket_addr: peers[*p as usize].udp4_socket().unwrap().into(), node_id: ids[*p as usize] };
+                // 200 + i: a newer record of peer i on the next port (the predicate looks at the port's parity)
+                let nodes: Vec<Enr> = s.iter().map(|i| if *i >= 200 { let j = *i - 200; util::enr4(&util::key(91 + j as u16), 2, util::v4(10, 7, 0, j + 1, 9000 + j as u16 + 1)) } else if *i >= 100 { util::enr(&util::key(91 + (*i - 100) as u16), &util::EnrSpec { seq: 2, ..Default::default() }) } else { peers[*i as usize].clone() }).collect();
+                for (i, r) in s.iter().zip(nodes.iter()) {
+                    if predicate(r) {
+                        reported_ok.insert(if *i >= 200 { *i - 200 } else if *i >= 100 { *i - 100 } else { *i } as usize);
+                    }
+                }
+                let from = NodeAddress { socket_addr: sent_to.get(&(*p as usize)).copied().unwrap_or_else(|| peers[*p as usize].udp4_socket().unwrap().into()), node_id: ids[*p as usize] };
                 node.inject(HandlerOut::Response(from, Box::new(v::Response { id, body: v::ResponseBody::Nodes { total: 1, nodes } }))).await;
             }
-            LEv::Fail(p) => {
+            LEv::Partial(p, a) => {
                 let (id, _, _) = issued.get(&(*p as usize)).cloned().expect("outstanding");
+                partial.insert(*p as usize, *a as usize);
+                *counters.entry("partial_answers").or_insert(0) += 1;
+                let from = NodeAddress { socket_addr: sent_to.get(&(*p as usize)).copied().unwrap_or_else(|| peers[*p as usize].udp4_socket().unwrap().into()), node_id: ids[*p as usize] };
+                node.inject(HandlerOut::Response(from, Box::new(v::Response { id, body: v::ResponseBody::Nodes { total: 2, nodes: vec![peers[*a as usize].clone()] } }))).await;
+            }
+            LEv::Fail(p) => {
+                let (id, _, distances) = issued.get(&(*p as usize)).cloned().expect("outstanding");
+                // what a failed request had received so far is processed as its answer
+                if let Some(a) = partial.remove(&(*p as usize)) {
+                    succeeded.insert(*p as usize);
+                    successes += 1;
+                    *counters.entry("partial_answers_salvaged").or_insert(0) += 1;
+                    let d = util::log2_distance(&ids[*p as usize], &ids[a]);
+                    if distances.contains(&d) {
+                        learned.insert(a);
+                    }
+                }
                 answered.insert(*p as usize);
                 node.inject(HandlerOut::RequestFailed(id, discv5::RequestError::Timeout)).await;
             }
             LEv::Late(p) => {
                 let (id, _, _) = issued.get(&(*p as usize)).cloned().expect("issued");
-                let from = NodeAddress { socket_addr: peers[*p as usize].udp4_socket().unwrap().into(), node_id: ids[*p as usize] };
+                let from = NodeAddress { socket_addr: sent_to.get(&(*p as usize)).copied().unwrap_or_else(|| peers[*p as usize].udp4_socket().unwrap().into()), node_id: ids[*p as usize] };
                 node.inject(HandlerOut::Response(from, Box::new(v::Response { id, body: v::ResponseBody::Nodes { total: 1, nodes: vec![peers[0].clone()] } }))).await;
             }
             LEv::IdlePeer => {
@@ -217,7 +254,7 @@ async fn run_async(cfg: &LCfg, hist: &[LEv]) -> Outcome<LEv> {
             LEv::Stale(p) => {
                 let id = stale.get(&(*p as usize)).cloned().expect("stale request");
                 *counters.entry("stale_answers").or_insert(0) += 1;
-                let from = NodeAddress { socket_addr: peers[*p as usize].udp4_socket().unwrap().into(), node_id: ids[*p as usize] };
+                let from = NodeAddress { socket_addr: sent_to.get(&(*p as usize)).copied().unwrap_or_else(|| peers[*p as usize].udp4_socket().unwrap().into()), node_id: ids[*p as usize] };
                 let other = (*p as usize + 1) % cfg.n_peers;
                 node.inject(HandlerOut::Response(from, Box::new(v::Response { id, body: v::ResponseBody::Nodes { total: 1, nodes: vec![peers[other].clone()] } }))).await;
             }
@@ -266,8 +303,11 @@ async fn run_async(cfg: &LCfg, hist: &[LEv]) -> Outcome<LEv> {
                     for (e, id) in list.iter().zip(rid.iter()) {
                         match ids.iter().position(|i| i == id) {
                             Some(p) if succeeded.contains(&p) => {
-                                if cfg.predicate_k.is_some() && !predicate(e) {
-                                    violation = Some(mk("a predicate lookup returns only nodes satisfying the predicate", "c10:result-predicate", format!("peer {p}")));
+                                // (the record handed back may be an older one the node holds: the property
+                                // speaks of the records the node was *reported with*)
+                                let _ = e;
+                                if cfg.predicate_k.is_some() && !reported_ok.contains(&p) {
+                                    violation = Some(mk("a predicate lookup returns only nodes that were reported to it with a record satisfying the predicate", "c10:result-predicate", format!("peer {p}: no record of it that satisfies the predicate was ever reported to the lookup")));
                                 }
                             }
                             Some(p) => violation = Some(mk("every returned node answered the lookup's request", "c10:result-unanswered", format!("peer {p} returned but never answered"))),
@@ -307,12 +347,25 @@ async fn run_async(cfg: &LCfg, hist: &[LEv]) -> Outcome<LEv> {
             for a in &all {
                 sets.push(vec![100 + *a]); // a newer, endpoint-less record of another peer
             }
+            if cfg.predicate_k.is_some() {
+                for a in &all {
+                    sets.push(vec![200 + *a]); // a newer record of another peer for which the predicate flips
+                }
+            }
             sets
         };
         for (p, _) in issued.iter() {
-            if !answered.contains(p) {
+            if !answered.contains(p) && partial.contains_key(p) {
+                // the second packet never comes
+                enabled.push(LEv::Fail(*p as u8));
+            } else if !answered.contains(p) {
                 for s in others(*p) {
                     enabled.push(LEv::Resp(*p as u8, s));
+                }
+                if cfg.partial {
+                    for a in (0..cfg.n_peers as u8).filter(|a| *a as usize != *p) {
+                        enabled.push(LEv::Partial(*p as u8, a));
+                    }
                 }
                 enabled.push(LEv::Fail(*p as u8));
             } else if hist.iter().filter(|e| matches!(e, LEv::Late(q) if *q as usize == *p)).count() == 0 {
@@ -343,12 +396,20 @@ async fn run_async(cfg: &LCfg, hist: &[LEv]) -> Outcome<LEv> {
             clock::advance(Duration::from_millis(10));
             let pending: Vec<usize> = issued.keys().filter(|p| !answered.contains(p)).copied().collect();
             if let Some(p) = pending.first() {
-                let (id, _, _) = issued[p].clone();
+                let (id, _, distances) = issued[p].clone();
+                let mut total = 1;
+                if let Some(a) = partial.remove(p) {
+                    // the (empty) second packet completes the answer
+                    total = 2;
+                    if distances.contains(&util::log2_distance(&ids[*p], &ids[a])) {
+                        learned.insert(a);
+                    }
+                }
                 answered.insert(*p);
                 succeeded.insert(*p);
                 successes += 1;
-                let from = NodeAddress { socket_addr: peers[*p].udp4_socket().unwrap().into(), node_id: ids[*p] };
-                node.inject(HandlerOut::Response(from, Box::new(v::Response { id, body: v::ResponseBody::Nodes { total: 1, nodes: vec![] } }))).await;
+                let from = NodeAddress { socket_addr: sent_to.get(p).copied().unwrap_or_else(|| peers[*p].udp4_socket().unwrap().into()), node_id: ids[*p] };
+                node.inject(HandlerOut::Response(from, Box::new(v::Response { id, body: v::ResponseBody::Nodes { total, nodes: vec![] } }))).await;
             } else if guard > 20 {
                 cut_off = true;
                 clock::advance(QUERY_TIMEOUT);
@@ -368,7 +429,7 @@ async fn run_async(cfg: &LCfg, hist: &[LEv]) -> Outcome<LEv> {
     }
     let _ = (started, resolved_at);
     let inflight_view: Vec<(usize, bool)> = issued.iter().filter(|(p, _)| !answered.contains(p)).map(|(p, (_, t, _))| (*p, now < *t + PEER_TIMEOUT)).collect();
-    let delivered: Vec<String> = hist.iter().filter(|e| matches!(e, LEv::Resp(..) | LEv::Stale(..))).map(|e| format!("{:?}", e)).collect::<BTreeSet<_>>().into_iter().collect();
+    let delivered: Vec<String> = hist.iter().filter(|e| matches!(e, LEv::Resp(..) | LEv::Stale(..) | LEv::Partial(..))).map(|e| format!("{:?}", e)).collect::<BTreeSet<_>>().into_iter().collect();
     let fp = mc::fp_of(&(issued.keys().collect::<Vec<_>>(), &answered, &succeeded, successes.min(par + 1), inflight_view, delivered, hist.iter().filter(|e| matches!(e, LEv::IdleQuery)).count(), result.as_ref().map(|r| r.len())));
     if let Some(x) = violation.as_mut() {
         x.replay = json!({"engine":"ssim","check":"lookup","cfg":format!("{:?}",cfg),"history":format!("{:?}",hist)});
@@ -381,8 +442,8 @@ async fn run_async(cfg: &LCfg, hist: &[LEv]) -> Outcome<LEv> {
 
 pub fn debug() {
     let cfgs = vec![
-        LCfg { n_peers: 4, seeded: vec![0], parallelism: 1, predicate_k: None, prelude: 0 },
-        LCfg { n_peers: 4, seeded: vec![0, 1, 2], parallelism: 2, predicate_k: None, prelude: 0 },
+        LCfg { n_peers: 4, seeded: vec![0], parallelism: 1, predicate_k: None, prelude: 0, partial: false },
+        LCfg { n_peers: 4, seeded: vec![0, 1, 2], parallelism: 2, predicate_k: None, prelude: 0, partial: false },
     ];
     for cfg in &cfgs {
         for _ in 0..3 {
@@ -405,20 +466,22 @@ pub struct LookupResult {
 
 pub fn search(thorough: bool, budget: f64) -> LookupResult {
     let mut cfgs = vec![
-        LCfg { n_peers: 4, seeded: vec![0], parallelism: 1, predicate_k: None, prelude: 0 },
-        LCfg { n_peers: 4, seeded: vec![0, 1, 2], parallelism: 2, predicate_k: None, prelude: 0 },
-        LCfg { n_peers: 4, seeded: vec![0, 1, 2, 3], parallelism: 3, predicate_k: Some(2), prelude: 0 },
-        LCfg { n_peers: 4, seeded: vec![3, 1], parallelism: 1, predicate_k: Some(1), prelude: 0 },
+        LCfg { n_peers: 4, seeded: vec![0], parallelism: 1, predicate_k: None, prelude: 0, partial: false },
+        LCfg { n_peers: 4, seeded: vec![0, 1, 2], parallelism: 2, predicate_k: None, prelude: 0, partial: false },
+        LCfg { n_peers: 4, seeded: vec![0, 1, 2, 3], parallelism: 3, predicate_k: Some(2), prelude: 0, partial: false },
+        LCfg { n_peers: 4, seeded: vec![3, 1], parallelism: 1, predicate_k: Some(1), prelude: 0, partial: false },
     ];
     // a second lookup started while requests of an ended one are still outstanding at the handler
-    cfgs.push(LCfg { n_peers: 3, seeded: vec![0, 1], parallelism: 2, predicate_k: None, prelude: 1 });
-    cfgs.push(LCfg { n_peers: 3, seeded: vec![0, 1], parallelism: 2, predicate_k: Some(1), prelude: 2 });
+    cfgs.push(LCfg { n_peers: 3, seeded: vec![0, 1], parallelism: 2, predicate_k: None, prelude: 1, partial: false });
+    cfgs.push(LCfg { n_peers: 3, seeded: vec![0, 1], parallelism: 2, predicate_k: Some(1), prelude: 2, partial: false });
+    // answers that stop after the first of two packets
+    cfgs.push(LCfg { n_peers: 3, seeded: vec![0], parallelism: 1, predicate_k: None, prelude: 0, partial: true });
     if thorough {
-        cfgs.push(LCfg { n_peers: 4, seeded: vec![0, 1, 2], parallelism: 3, predicate_k: None, prelude: 2 });
-        cfgs.push(LCfg { n_peers: 4, seeded: vec![0, 1, 2], parallelism: 2, predicate_k: Some(2), prelude: 1 });
-        cfgs.push(LCfg { n_peers: 5, seeded: vec![0, 1, 2, 3, 4], parallelism: 2, predicate_k: Some(2), prelude: 0 });
-        cfgs.push(LCfg { n_peers: 5, seeded: vec![4], parallelism: 3, predicate_k: None, prelude: 0 });
-        cfgs.push(LCfg { n_peers: 5, seeded: vec![0, 2, 4], parallelism: 2, predicate_k: Some(3), prelude: 0 });
+        cfgs.push(LCfg { n_peers: 4, seeded: vec![0, 1, 2], parallelism: 3, predicate_k: None, prelude: 2, partial: false });
+        cfgs.push(LCfg { n_peers: 4, seeded: vec![0, 1, 2], parallelism: 2, predicate_k: Some(2), prelude: 1, partial: false });
+        cfgs.push(LCfg { n_peers: 5, seeded: vec![0, 1, 2, 3, 4], parallelism: 2, predicate_k: Some(2), prelude: 0, partial: false });
+        cfgs.push(LCfg { n_peers: 5, seeded: vec![4], parallelism: 3, predicate_k: None, prelude: 0, partial: false });
+        cfgs.push(LCfg { n_peers: 5, seeded: vec![0, 2, 4], parallelism: 2, predicate_k: Some(3), prelude: 0, partial: false });
     }
     let depth = if thorough { 7 } else { 5 };
     let start = clock::wall();
